@@ -894,6 +894,19 @@ def rule_token_domain(ctx):
     R = "C10.token-domain"
     vis = visitor(prog)
     table = terminal_table(prog)
+    # every literal token of either grammar is turned into a constant of the model: a token without a branch in visitTerminal
+    # comes back as a raw parse-tree node, which prints as the token text but is no constant (comparison, hashing, equivalence
+    # fail on it)
+    vt = vis.methods.get("visitTerminal")
+    for ver in ("2.0", "2.1"):
+        lits = sorted(sy for sy in grammar(ver)["symbols"] if isinstance(sy, str) and sy.endswith("Literal"))
+        if len(lits) < 8:
+            raise AnalysisError("grammar oracle: only %d literal tokens found (%s)" % (len(lits), ver))
+        missing = [t for t in lits if t not in table]
+        run.check(not missing, R, key(vt.module.relpath, vt.qualname, "%s:every-literal-token-becomes-a-constant" % ver),
+                  "literal tokens of the %s grammar without a branch in visitTerminal: %s -- such a literal stays a raw parse-tree "
+                  "node in the model" % (ver, missing), file=vt.module.relpath, line=vt.node.lineno, function=vt.qualname,
+                  expected="a branch for %s" % lits, found="branches for %s" % sorted(table))
     for ver in ("2.0", "2.1"):
         g = grammar(ver)
         for rule, default_cls in sorted(QUALIFIER_RULES.items()):
@@ -928,7 +941,7 @@ def rule_token_domain(ctx):
                                                                   sorted(produced), cname, missing),
                       file=cls.module.relpath, line=init.node.lineno, function=cname, expected="accepts %s" % sorted(produced),
                       found="accepts %s" % sorted(accepted))
-    run.floor(R, 6)
+    run.floor(R, 8)
 
 
 def rule_hex_literal_form(ctx):
@@ -985,7 +998,8 @@ def rule_float_literal_form(ctx):
              or (isinstance(x, ast.JoinedStr) and norm(x) in ("f'{self.value}'", "f'{self.value!r}'", "f'{self.value!s}'"))]
     # accepted: the exponent form is detected and re-expanded EXACTLY (decimal.Decimal of the shortest repr); a plain 'f'
     # presentation of the float itself (format(x, 'f'), '%f' % x, '{:f}') keeps six decimals and loses small values
-    handles_exp = ("'e' in" in txt or "'E' in" in txt) and "Decimal" in txt
+    # (repr of a float writes the exponent with a lower-case 'e': that is the character the test has to look for)
+    handles_exp = "'e' in" in txt and "Decimal" in txt
     lossy = []
     for x in body_walk(st.node):
         if isinstance(x, ast.Call) and call_simple_name(x) == "format" and isinstance(x.func, ast.Name) and len(x.args) == 2 \
